@@ -61,9 +61,9 @@ CURATED = {
     },
     "direct_model": { "DataMixin._set_data": ("C10",), "DirectModel.simulate_data": ("C10",),
         MODULE_BODY: ("C10",),
-        "call_kernel": ("C01", "C05", "C06", "C07", "C08", "C09", "C10", "C14", "C16",), "call_Fq": ("C07", "C09", "C11", "C14", "C16",), "get_mesh": ("C01", "C02", "C05", "C06", "C07", "C08", "C09", "C10", "C11", "C14", "C16",), "_pop_par_weights": ("C01", "C02", "C05", "C06", "C07", "C08", "C10", "C11", "C14",),
-        "_make_sesans_transform": ("C19",), "DataMixin._interpret_data": ("C03", "C10"), "DataMixin._calc_theory": ("C03", "C07", "C10", "C11", "C19",),
-        "DirectModel.__init__": ("C10",), "DirectModel.__call__": ("C10",), "_direct_calculate": ("C10",), "Iq": ("C10",), "Iqxy": ("C10",),
+        "call_kernel": ("C01", "C05", "C06", "C07", "C08", "C09", "C10", "C14", "C16",), "call_Fq": ("C07", "C09", "C11", "C14", "C16",), "get_mesh": ("C01", "C02", "C05", "C06", "C07", "C08", "C09", "C10", "C11", "C14", "C16",), "_pop_par_weights": ("C01", "C02", "C05", "C06", "C07", "C08", "C10", "C11", "C14", "C16",),
+        "_make_sesans_transform": ("C19",), "DataMixin._interpret_data": ("C03", "C04", "C10", "C11", "C19",), "DataMixin._calc_theory": ("C03", "C07", "C10", "C11", "C19",),
+        "DirectModel.__init__": ("C10", "C19",), "DirectModel.__call__": ("C01", "C10", "C19",), "_direct_calculate": ("C10", "C19",), "Iq": ("C10",), "Iqxy": ("C10",),
         "Gxi": ("C10", "C19"),
     },
     "details": { "CallDetails.pd_par": ("C01",), "CallDetails.pd_length": ("C01",), "CallDetails.pd_offset": ("C01",), "CallDetails.pd_stride": ("C01",), "CallDetails.num_eval": ("C01",), "CallDetails.num_weights": ("C01",), "CallDetails.num_active": ("C01",), "CallDetails.theta_par": ("C01", "C05",),
@@ -82,7 +82,7 @@ CURATED = {
     "kernelpy": { "PyModel.__init__": ("C09",), "PyKernel.release": ("C11",), "PyInput.release": ("C11",), "PyModel.release": ("C11",),
         MODULE_BODY: ("C09",),
         "PyModel.make_kernel": ("C09",), "PyInput.__init__": ("C01", "C09", "C11", "C15",), "PyKernel.__init__": ("C01", "C09", "C11",), "PyKernel._call_kernel": ("C01", "C06", "C09", "C11", "C14",),
-        "_loops": ("C01", "C09", "C11", "C14",), "_create_default_functions": ("C09",), "_create_vector_Iq": ("C09",), "_create_vector_Iqxy": ("C09",),
+        "_loops": ("C01", "C09", "C11", "C14",), "_create_default_functions": ("C09", "C11",), "_create_vector_Iq": ("C09", "C11",), "_create_vector_Iqxy": ("C09", "C11",),
     },
     "sasview_model": { "SasviewModel.getParamList": ("C10",), "SasviewModel.getDispParamList": ("C10",), "SasviewModel.is_fittable": ("C10",), "SasviewModel.calculate_ER": ("C10", "C14",), "SasviewModel.calculate_VR": ("C10", "C14",), "SasviewModel._dispersion_mesh": ("C10",), "SasviewModel.calc_composition_models": ("C10",), "MultiplicationModel": ("C07", "C10",), "SasviewModel.__get_state__": ("C11",), "SasviewModel.__set_state__": ("C11",), "find_model": ("C10",), "load_standard_models": ("C10",), "reset_environment": ("C11", "C17",),
         MODULE_BODY: ("C10", "C11"),
@@ -104,8 +104,8 @@ CURATED = {
         "find_xy_mode": ("C09",), "contains_Fq": ("C09", "C14"), "contains_shell_volume": ("C09",), "_gen_fn": ("C09",), "_call_pars": ("C09", "C16"),
         "make_source": ("C09", "C16", "C17"), "load_template": ("C17",), "model_sources": ("C17",), "_add_source": ("C17",), "kernel_name": ("C17",),
     },
-    "modelinfo": { "Parameter.__init__": ("C09",), "Parameter.as_definition": ("C09", "C16",), "Parameter.as_function_argument": ("C09", "C16",), "ParameterTable._get_ref": ("C01", "C09",), "ParameterTable.user_parameters": ("C10",), "ParameterTable.set_zero_background": ("C07", "C08",), "expand_pars": ("C09", "C10",), "prefix_parameter": ("C08",), "suffix_parameter": ("C07", "C08",), "ModelInfo.get_hidden_parameters": ("C10",), "ParameterTable.__getitem__": ("C09",), "ParameterTable.__contains__": ("C09",),
-        "make_parameter_table": ("C09", "C16",), "parse_parameter": ("C09", "C16",), "ParameterTable.__init__": ("C01", "C05", "C06", "C07", "C08", "C09", "C10", "C16",), "ParameterTable.check_angles": ("C05", "C09",),
+    "modelinfo": { "Parameter.__init__": ("C09", "C20",), "Parameter.as_definition": ("C09", "C16",), "Parameter.as_function_argument": ("C09", "C16",), "ParameterTable._get_ref": ("C01", "C09",), "ParameterTable.user_parameters": ("C10",), "ParameterTable.set_zero_background": ("C07", "C08",), "expand_pars": ("C09", "C10",), "prefix_parameter": ("C08",), "suffix_parameter": ("C07", "C08",), "ModelInfo.get_hidden_parameters": ("C10",), "ParameterTable.__getitem__": ("C09",), "ParameterTable.__contains__": ("C09",),
+        "make_parameter_table": ("C09", "C16",), "parse_parameter": ("C09", "C16", "C20",), "ParameterTable.__init__": ("C01", "C05", "C06", "C07", "C08", "C09", "C10", "C16",), "ParameterTable.check_angles": ("C05", "C09",),
         "ParameterTable.check_duplicates": ("C09",), "ParameterTable._set_vector_lengths": ("C01", "C09",), "ParameterTable._get_call_parameters": ("C01", "C06", "C07", "C08", "C09", "C16",),
         "ParameterTable._get_defaults": ("C10",), "make_model_info": ("C09", "C16",), "derive_table": ("C16",), "_insert_after": ("C16",), "_simple_insert": ("C16",),
     },
